@@ -428,6 +428,16 @@ def pur3(ctx):
         r.inst("static %s" % path, short_loc(s["loc"]), "report")
         r.report("PUR-3|static|%s" % path, short_loc(s["loc"]), path,
                  "static of type %s is not Freeze (interior mutability): state can survive a call" % ty)
+    if ctx.tier == "thorough" and ctx.lib_t is not None:
+        # cfg(test) units: test-only statics must not hide a writer either
+        known = {s["path"] for s in lib.statics}
+        for s in ctx.lib_t.statics:
+            if s["path"] in known or s.get("exp") and s["ty"].startswith("lazy_static::lazy::Lazy<"):
+                continue
+            ok = not s.get("mut") and s.get("freeze") and not s.get("thread_local")
+            r.inst("cfg(test) static %s" % s["path"], short_loc(s["loc"]), "ok" if ok else "report", nontrivial=False)
+            if not ok:
+                r.report("PUR-3|test-static|%s" % s["path"], short_loc(s["loc"]), s["path"], "a cfg(test) static carries mutable state")
     # thread_local! expands to a const/static + LocalKey: any LocalKey-typed item
     for p, c in lib.consts.items():
         if "std::thread::local::LocalKey" in c.get("ty", ""):
